@@ -40,6 +40,10 @@ func runC04(c *an.Ctx) {
 	c.Min("R04.12", 40)
 	r072as(c, "R04.13") // what a write stores - and announces - is a copy: the caller's message never becomes the event's value (shared with R07.2)
 	c.Min("R04.13", 4)
+	r109(c, "R04.14") // a subscriber that keeps listening keeps getting events: the registry drops exactly the listeners whose context ended (shared with R10.9)
+	c.Min("R04.14", 3)
+	r167(c, "R04.15") // "equivalent" means equal in every element, the first included: a write that changes only element 0 is announced (shared with R16.7)
+	c.Min("R04.15", 1)
 	{
 		// the seed flags of single-item subscriptions (shares the walk of R03.7; only the seed clause is reported here)
 		sub := an.NewCtx(c.Prog, c.Property, c.Tier)
